@@ -2,7 +2,7 @@
 import ast
 import os
 
-from .. import coqrun, py2gallina as pg, zoo
+from .. import coqrun, py2gallina as pg, symex as X, zoo
 from ..core import Corr, Untranslatable, Violation
 
 ID = "C17"
@@ -95,28 +95,45 @@ def _normunet_pad(tree, cls, axes, path):
     return res[axes[0]]
 
 
-def _cat_idx(fn, k, path, what):
-    """Padding-index map of the up path: `if output.shape[-a] != downsample_layer.shape[-a]: padding[i] = 1`."""
-    idx = {}
-    for node in ast.walk(fn):
-        if isinstance(node, ast.If):
-            t = ast.unparse(node.test)
-            for a in range(1, k + 1):
-                if t == "output.shape[-%d] != downsample_layer.shape[-%d]" % (a, a):
-                    if len(node.body) != 1 or node.orelse:
-                        _fail("%s: padding branch outside subset" % what, node, path)
-                    s = node.body[0]
-                    if not (isinstance(s, ast.Assign) and isinstance(s.targets[0], ast.Subscript) and ast.unparse(s.targets[0].value) == "padding" and ast.unparse(s.value) == "1" and isinstance(s.targets[0].slice, ast.Constant)):
-                        _fail("%s: padding branch outside subset" % what, s, path)
-                    idx[a - 1] = int(s.targets[0].slice.value)
-    if sorted(idx) != list(range(k)):
-        _fail("%s: expected one size test per spatial axis" % what, fn, path)
-    src = ast.unparse(fn)
-    if "padding = [%s]" % ", ".join(["0"] * (2 * k)) not in src or "F.pad(output, padding, 'reflect')" not in src or "if sum(padding) != 0:" not in src:
-        _fail("%s: padding list / reflect pad call not found" % what, fn, path)
-    if "torch.cat([output, downsample_layer], dim=1)" not in src:
-        _fail("%s: concatenation with the skip connection not found" % what, fn, path)
-    return [idx[j] for j in range(k)]
+def _cat_idx(tree, qual, k, path, what):
+    """Padding-index map of the up path, from the reflect-pad calls a symbolic execution (vlib/symex.py) of one generic
+    up-sampling step meets: on every path the padding list has a 1 exactly at the places of the axes whose size differs
+    from the skip connection's, and nothing is padded when none differs; then the two are concatenated on the channel axis."""
+    hits, stopped = X.watch_calls(tree, path, qual, ["pad", "cat"])
+    per_axis = {}
+    seen_sets = set()
+    hits["pad"] = [(c_, a_, k_) for c_, a_, k_ in hits["pad"] if (list(a_[2:]) + [dict(k_).get("mode")])[0] == X.const("reflect")]  # the up path's
+    for conds, args, kw in hits["pad"]:
+        if len(args) < 2 or args[1][0] != "list" or len(args[1][1]) != 2 * k or not all(x in (X.const(0), X.const(1)) for x in args[1][1]):
+            _fail("%s: F.pad is not called with a list of %d zeros / ones: %s" % (what, 2 * k, [X.show(a_)[:40] for a_ in args]), None, path)
+        mode = (list(args[2:]) + [dict(kw).get("mode")])[0]
+        if mode != X.const("reflect"):
+            _fail("%s: padding mode is not reflect" % what, None, path)
+        differ = set()
+        for c, pol in conds:
+            if c[0] == "cmp" and c[1] == "!=" and c[2][0] == "sub" and c[3][0] == "sub" and c[2][2] == c[3][2] and X.is_const(c[2][2]) and c[2][1][0] == "attr" and c[2][1][2] == "shape" and c[3][1][0] == "attr" and c[3][1][2] == "shape":
+                a_ = -c[2][2][1]
+                if 1 <= a_ <= k and pol:
+                    differ.add(a_ - 1)
+        ones = [i for i, x in enumerate(args[1][1]) if x == X.const(1)]
+        if len(ones) != len(differ) or not differ:
+            _fail("%s: the padding list does not have one 1 per differing axis (axes %s, places %s)" % (what, sorted(differ), ones), None, path)
+        seen_sets.add(frozenset(differ))
+        if len(differ) == 1:
+            per_axis[next(iter(differ))] = ones[0]
+    if sorted(per_axis) != list(range(k)):
+        _fail("%s: expected one size test per spatial axis (%s)" % (what, stopped), None, path)
+    # the places are those of the single-axis cases also when several axes differ
+    for conds, args, kw in hits["pad"]:
+        differ = {-c[2][2][1] - 1 for c, pol in conds if pol and c[0] == "cmp" and c[1] == "!=" and c[2][0] == "sub" and X.is_const(c[2][2]) and type(c[2][2][1]) is int and 1 <= -c[2][2][1] <= k}
+        if sorted(i for i, x in enumerate(args[1][1]) if x == X.const(1)) != sorted(per_axis[a_] for a_ in differ):
+            _fail("%s: padding places differ between paths" % what, None, path)
+    if len(seen_sets) != 2 ** k - 1:
+        _fail("%s: not every combination of differing axes is padded" % what, None, path)
+    cats = [(args, dict(kw)) for conds, args, kw in hits["cat"]]
+    if not cats or any(not (a_ and a_[0][0] == "list" and len(a_[0][1]) == 2 and (list(a_[1:]) + [k_.get("dim")])[0] == X.const(1)) for a_, k_ in cats):
+        _fail("%s: concatenation with the skip connection on the channel axis not found" % what, None, path)
+    return [per_axis[j] for j in range(k)]
 
 
 def _odd_idx(fn, path, what):
@@ -136,32 +153,51 @@ def _odd_idx(fn, path, what):
     return [idx[0], idx[1]]
 
 
-def _crop(fn, path, what):
-    """crop_to_shape: per axis `if c > r: keep [:r]`; returns the Coq body of gen_crop c r after checking the axis map."""
-    body = pg.strip_doc(fn.body)
-    if ast.unparse(body[0]) != "h, w = x.shape[-2:]":
-        _fail("%s: expected `h, w = x.shape[-2:]`" % what, body[0], path)
-    seen = {}
-    for st in body[1:]:
-        if isinstance(st, ast.Return):
-            if ast.unparse(st.value) != "x":
-                _fail("%s: returns something else than x" % what, st, path)
-            continue
-        if not (isinstance(st, ast.If) and len(st.body) == 1 and not st.orelse and isinstance(st.test, ast.Compare) and len(st.test.ops) == 1):
-            _fail("%s: statement outside subset" % what, st, path)
-        var, bound = ast.unparse(st.test.left), ast.unparse(st.test.comparators[0])
-        ax = {"h": 0, "w": 1}.get(var)
-        if ax is None or bound != "shape[%d]" % ax:
-            _fail("%s: size test does not compare an axis with its own bound" % what, st, path)
-        want = "x = x[:, :, :shape[0], :]" if ax == 0 else "x = x[:, :, :, :shape[1]]"
-        if ast.unparse(st.body[0]) != want:
-            _fail("%s: slice does not cut the tested axis at its bound" % what, st, path)
-        tr = pg.ExprT({var: "c", bound: "r"}, path)
-        seen[ax] = tr.b(st.test)
-    if sorted(seen) != [0, 1] or seen[0] != seen[1]:
-        _fail("%s: the two axes are cropped by different rules" % what, fn, path)
-    return "if %s then slice_len c 0 r else c" % seen[0]
-
+def _crop(tree, qual, path, what):
+    """crop_to_shape: per axis `if c > r: keep [:r]`; returns the Coq body of gen_crop c r after checking, on the value
+    trees of a symbolic execution (vlib/symex.py: helpers and local names do not matter), that on every path each of the
+    two last axes is cut at its own bound exactly when its own test holds."""
+    S = lambda n: ("sym", n)
+    x, shape = S("x"), S("shape")
+    t, _n = X.run_function(tree, path, qual)
+    t = X.lift_ife(X.prune_raises(X.drop_do(t)))
+    full = ("slice", X.NONE, X.NONE, X.NONE)
+    sizes = [{("sub", ("attr", x, "shape"), X.const(-2)), ("call", ("attr", x, "size"), (X.const(-2),), ())}, {("sub", ("attr", x, "shape"), X.const(-1)), ("call", ("attr", x, "size"), (X.const(-1),), ())}]
+    rules = set()
+    for conds, lf in X.leaves(t):
+        v = lf[1]
+        cut = {}
+        while v != x:
+            if not (v[0] == "sub" and v[2][0] == "tuple"):
+                _fail("%s: result is not a slicing of x: %s" % (what, X.show(v)[:80]), None, path)
+            idx = list(v[2][1])
+            if idx and idx[0] == X.const(Ellipsis):
+                idx = idx[1:]
+            elif len(idx) == 4:
+                if idx[0] != full or idx[1] != full:
+                    _fail("%s: batch / channel axis sliced" % what, None, path)
+                idx = idx[2:]
+            if len(idx) != 2:
+                _fail("%s: slice outside subset: %s" % (what, X.show(v[2])[:80]), None, path)
+            for ax in (0, 1):
+                if idx[ax] != full:
+                    if idx[ax] != ("slice", X.NONE, ("sub", shape, X.const(ax)), X.NONE) or ax in cut:
+                        _fail("%s: slice does not cut axis %d at its own bound" % (what, ax), None, path)
+                    cut[ax] = True
+            v = v[1]
+        for ax in (0, 1):
+            tests = [(c, pol) for c, pol in conds if c[0] == "cmp" and c[2] in sizes[ax] and c[3] == ("sub", shape, X.const(ax))]
+            if len(tests) != 1:
+                _fail("%s: the path does not test axis %d against its own bound exactly once" % (what, ax), None, path)
+            c, pol = tests[0]
+            if pol != (ax in cut):
+                _fail("%s: axis %d is cut although its test fails, or kept although it holds" % (what, ax), None, path)
+            rules.add(X.Emit(lambda u, ax=ax: "c" if u in sizes[ax] else ("r" if u == ("sub", shape, X.const(ax)) else None), path).b(c))
+        if len(conds) != 2:
+            _fail("%s: other conditions on the path" % what, None, path)
+    if len(rules) != 1:
+        _fail("%s: the two axes are cropped by different rules" % what, None, path)
+    return "if %s then slice_len c 0 r else c" % rules.pop()
 
 
 # ------------------------------------------------------------------ U-Net layer sequence (constructor + forward) -> program
@@ -280,19 +316,68 @@ def _unet_program(tree, cls, blocks, pool_call, cat_idx_name, path, prologue=Non
     ups_t, ups_c = lists["self.up_transpose_conv"], lists["self.up_conv"]
     if [c for c, _ in ups_t] != [c for c, _ in ups_c]:
         _fail("%s: up_transpose_conv and up_conv are not built in step" % cls, init, path)
-    # forward: the two loops in their fixed form
-    fw = pg.find_def(tree, cls + ".forward", path)
-    src = ast.unparse(fw)
-    needles = ["for _, layer in enumerate(self.down_sample_layers):\n    output = layer(output)\n    stack.append(output)\n    output = %s" % pool_call,
-               "output = self.conv(output)", "for transpose_conv, conv in zip(self.up_transpose_conv, self.up_conv):\n    downsample_layer = stack.pop()\n    output = transpose_conv(output)",
-               "output = torch.cat([output, downsample_layer], dim=1)\n    output = conv(output)", "return output"]
-    flat = "\n".join(l[4:] if l.startswith("    ") else l for l in src.split("\n")[1:])
-    pos = 0
-    for n in needles:
-        i = flat.find(n, pos)
-        if i < 0:
-            _fail("%s.forward: expected `%s` (in this order)" % (cls, n.split("\n")[0]), fw, path)
-        pos = i + len(n)
+    # forward: down path (layer, push, pool), bottleneck, up path (pop, transposed conv, [reflect pad], cat on channels,
+    # conv), as the records of a symbolic execution (vlib/symex.py) of one generic iteration of each loop
+    S = lambda n: ("sym", n)
+    me = S("self")
+    hits, stopped = X.watch_calls(tree, path, cls + ".forward", [], opaque={"pad_to_pow_of_2"})
+    loops = hits["$loops"]
+    if len(loops) != 2:
+        _fail("%s.forward: expected the down-sampling and the up-sampling loop (%s)" % (cls, stopped), None, path)
+    L1, L2 = loops
+    ds = ("attr", me, "down_sample_layers")
+    if L1["iter"] not in (ds, ("call", S("enumerate"), (ds,), ())) and not (L1["iter"] == ds):
+        _fail("%s.forward: the first loop is not over self.down_sample_layers" % cls, None, path)
+    d1 = L1["depth"]
+    ends1 = [e_ for kind, c_, e_ in L1["paths"] if kind == "end"]
+    pooled = X.parse_expr(pool_call.replace("output", "__x__"))
+    for e_ in ends1:
+        outs = [n for n, v in e_.items() if v[0] == "call" and v[1] == pooled[1]]
+        applied = ("call", ("bv", d1), (("havoc", "output", d1),), ())
+        ok = len(ends1) == 1
+        carried = [n for n in L1["assigned"] if n in L1["before"]]
+        padded_in = ("sub", ("call", S("pad_to_pow_of_2"), (S("input_data"), ("attr", me, "num_pool_layers")), ()), X.const(0))
+        outn = [n for n in carried if L1["before"][n] in (S("input_data"), padded_in)]
+        stk = [n for n in carried if L1["before"][n] == ("list", ())]
+        if not (ok and len(outn) == 1 and len(stk) == 1):
+            _fail("%s.forward: the down path does not carry the running output and an (initially empty) stack" % cls, None, path)
+        on, sn = outn[0], stk[0]
+        applied = ("call", ("bv", d1), (("havoc", on, d1),), ())
+        if e_[on] != X._subst_value(pooled, {S("__x__"): applied}) or e_[sn] != ("appended", ("havoc", sn, d1), applied):
+            _fail("%s.forward: a down-sampling step is not layer -> push -> %s: %s" % (cls, pool_call, X.show(e_[on])[:100]), None, path)
+    if not (L2["iter"] == ("call", S("zip"), (("attr", me, "up_transpose_conv"), ("attr", me, "up_conv")), ())):
+        _fail("%s.forward: the second loop is not over zip(self.up_transpose_conv, self.up_conv)" % cls, None, path)
+    d2 = L2["depth"]
+    if L2["before"].get(on) != ("call", ("attr", me, "conv"), (("after", on, d1),), ()) or L2["before"].get(sn) != ("after", sn, d1):
+        _fail("%s.forward: the bottleneck is not self.conv applied to the output of the down path" % cls, None, path)
+    tconv, conv = ("sub", ("bv", d2), X.const(0)), ("sub", ("bv", d2), X.const(1))
+    up = ("call", tconv, (("havoc", on, d2),), ())
+    popped = ("call", ("attr", ("havoc", sn, d2), "pop"), (), ())
+    ends2 = [e_ for kind, c_, e_ in L2["paths"] if kind == "end"]
+    if not ends2:
+        _fail("%s.forward: the up path never completes an iteration" % cls, None, path)
+    for e_ in ends2:
+        v = e_[on]
+        ok = v[0] == "call" and v[1] == conv and len(v[2]) == 1 and v[2][0][0] == "call" and v[2][0][1] == ("attr", S("torch"), "cat")
+        if ok:
+            cat = v[2][0]
+            items = cat[2][0][1] if cat[2] and cat[2][0][0] in ("list", "tuple") else ()
+            axis = (list(cat[2][1:]) + [dict(cat[3]).get("dim")])[0]
+            def alts(u):  # a helper that pads conditionally returns a conditional value
+                return alts(u[2]) + alts(u[3]) if u[0] == "ife" else [u]
+
+            firsts = alts(items[0]) if len(items) == 2 else []
+            fine = lambda u: u == up or (u[0] == "call" and u[1] == ("attr", S("F"), "pad") and u[2][:1] == (up,))
+            ok = len(items) == 2 and axis == X.const(1) and items[1] == popped and bool(firsts) and all(fine(u) for u in firsts)
+        if not ok:
+            _fail("%s.forward: an up-sampling step is not pop -> transposed conv -> [pad] -> cat([output, skip], dim=1) -> conv: %s" % (cls, X.show(v)[:140]), None, path)
+    t, _n = X.run_function(tree, path, cls + ".forward", opaque={"pad_to_pow_of_2"})
+    for conds, lf in X.leaves(X.prune_raises(X.drop_do(t))):
+        v = lf[1] if lf[0] == "ret" else None
+        if v is not None and v[0] == "sub":  # the 3-D model crops its input padding off again (translated separately)
+            v = v[1]
+        if v != ("after", on, d2):
+            _fail("%s.forward: what is returned is not the output of the up path" % cls, None, path)
     down = " ++ ".join("rep %s ([%s] ++ [OPush; OPool 2 2])" % (c, "; ".join(ops)) for c, ops in lists["self.down_sample_layers"])
     mid = "[%s]" % "; ".join(single["self.conv"])
     up = " ++ ".join("rep %s ([%s] ++ [OPopPadCat %s] ++ [%s])" % (ct, "; ".join(ot), cat_idx_name, "; ".join(oc)) for (ct, ot), (_, oc) in zip(ups_t, ups_c))
@@ -306,7 +391,7 @@ def generate(ctx):
     mult, lo, hi = _normunet_pad(t2, "NormUnetModel2d", ["w", "h"], p2)
     out += "Definition gen_nu_mult (n : Z) : Z := %s.\nDefinition gen_nu_lo (n : Z) : Z := %s.\nDefinition gen_nu_hi (n : Z) : Z := %s.\n" % (mult, lo, hi)
     out += "Definition gen_nu_start (n c : Z) : Z := gen_nu_lo n.\nDefinition gen_nu_stop (n c : Z) : Z := gen_nu_mult n - gen_nu_hi n.\n"
-    out += "Definition gen_cat_idx2 : list nat := [%s]%%nat.\n" % "; ".join(map(str, _cat_idx(pg.find_def(t2, "UnetModel2d.forward", p2), 2, p2, "UnetModel2d.forward")))
+    out += "Definition gen_cat_idx2 : list nat := [%s]%%nat.\n" % "; ".join(map(str, _cat_idx(t2, "UnetModel2d.forward", 2, p2, "UnetModel2d.forward")))
     # the pooling in the down path
     src = ast.unparse(pg.find_def(t2, "UnetModel2d.forward", p2))
     if "F.avg_pool2d(output, kernel_size=2, stride=2, padding=0)" not in src:
@@ -318,7 +403,7 @@ def generate(ctx):
     out += "Definition gen_nu3_mult (n : Z) : Z := %s.\nDefinition gen_nu3_lo (n : Z) : Z := %s.\nDefinition gen_nu3_hi (n : Z) : Z := %s.\n" % (mult3, lo3, hi3)
     out += "Definition gen_nu3_start (n c : Z) : Z := gen_nu3_lo n.\nDefinition gen_nu3_stop (n c : Z) : Z := gen_nu3_mult n - gen_nu3_hi n.\n"
     f3 = pg.find_def(t3, "UnetModel3d.forward", p3)
-    out += "Definition gen_cat_idx3 : list nat := [%s]%%nat.\n" % "; ".join(map(str, _cat_idx(f3, 3, p3, "UnetModel3d.forward")))
+    out += "Definition gen_cat_idx3 : list nat := [%s]%%nat.\n" % "; ".join(map(str, _cat_idx(t3, "UnetModel3d.forward", 3, p3, "UnetModel3d.forward")))
     out += "Definition gen_unet3d_layers (L : nat) : list sop :=\n  %s.\n" % _unet_program(t3, "UnetModel3d", ["ConvBlock3D", "TransposeConvBlock3D"], "F.avg_pool3d(output, kernel_size=2, stride=2, padding=0)", "gen_cat_idx3", p3)
     src3 = ast.unparse(f3)
     if "F.avg_pool3d(output, kernel_size=2, stride=2, padding=0)" not in src3 or "output, inp_pad = pad_to_pow_of_2(input_data, self.num_pool_layers)" not in src3:
@@ -349,12 +434,12 @@ def generate(ctx):
     pm = ctx.src(MWCNN)
     tm, _ = pg.parse_file(pm)
     out += "Definition gen_mw_pad_idx : list nat := [%s]%%nat.\n" % "; ".join(map(str, _odd_idx(pg.find_def(tm, "MWCNN.pad", pm), pm, "MWCNN.pad")))
-    out += "Definition gen_mw_crop (c r : Z) : Z := %s.\n" % _crop(pg.find_def(tm, "MWCNN.crop_to_shape", pm), pm, "MWCNN.crop_to_shape")
+    out += "Definition gen_mw_crop (c r : Z) : Z := %s.\n" % _crop(tm, "MWCNN.crop_to_shape", pm, "MWCNN.crop_to_shape")
     pdn = ctx.src(DIDN)
     td, _ = pg.parse_file(pdn)
     out += "Definition gen_dub_pad_idx : list nat := [%s]%%nat.\n" % "; ".join(map(str, _odd_idx(pg.find_def(td, "DUB.pad", pdn), pdn, "DUB.pad")))
-    out += "Definition gen_dub_crop (c r : Z) : Z := %s.\n" % _crop(pg.find_def(td, "DUB.crop_to_shape", pdn), pdn, "DUB.crop_to_shape")
-    out += "Definition gen_didn_crop (c r : Z) : Z := %s.\n" % _crop(pg.find_def(td, "DIDN.crop_to_shape", pdn), pdn, "DIDN.crop_to_shape")
+    out += "Definition gen_dub_crop (c r : Z) : Z := %s.\n" % _crop(td, "DUB.crop_to_shape", pdn, "DUB.crop_to_shape")
+    out += "Definition gen_didn_crop (c r : Z) : Z := %s.\n" % _crop(td, "DIDN.crop_to_shape", pdn, "DIDN.crop_to_shape")
     return [pg.write_gen(ctx, "C17_gen", out)]
 
 
